@@ -75,12 +75,13 @@ CHECKS = {
                  "EXECUTABLE MatchesUsingParentResults of the model is the abstract matcher of prune_core whenever parent results are present (matchesUPR_eq), "
                  "hence for every pattern list (negations included): if it says 'no match' at a directory and no positive pattern matches a path below without "
                  "matching the directory, the verdict stays 'no match' along every chain of descendants evaluated with threaded parent results - SkipDir there "
-                 "is unobservable (exec_prune_sound). "
+                 "is unobservable (exec_prune_sound); for literal and 't/**' patterns (what patternmatcher matches by string comparison) the syntactic prune "
+                 "test of filter.go alone implies that condition (literal_prune_condition, literal_prune_unobservable). "
                  "Correspondence: moby/patternmatcher vs the Lean matcher (regexp translation with exact/prefix/suffix shortcuts, rune semantics) on 30k "
                  "(pattern list, path) pairs; NewFilterFS.Walk vs the transcribed callback + WalkDir driver on trees x pattern lists x map tables; oracle: "
                  "the naive reference (stateless matcher on every entry + ancestors) and the no-pruning run."),
         "note": ("Trusted: Lean kernel + standard axioms; patternmatcher modelled for a declared fragment; that the syntactic prune test of filter.go implies the semantic condition for regexp-type "
-                 "patterns, and the lift to 'filterWalk with pruning = filterWalk without' over the transcribed callback and WalkDir driver, are by execution "
+                 "patterns ('t/*', classes, ...), the exclude side, and the lift to 'filterWalk with pruning = filterWalk without' over the transcribed callback and WalkDir driver, are by execution "
                  "(both variants are run on every case), not theorems. "
                  "Known finding F5 (parent-result vs stateless matcher under negations)."),
     },
